@@ -14,7 +14,6 @@ import (
 	"encoding/json"
 	"errors"
 	"fmt"
-	"io"
 	"math"
 	"regexp"
 	"sort"
@@ -25,7 +24,6 @@ import (
 	"github.com/compose-spec/compose-go/v2/loader"
 	"github.com/compose-spec/compose-go/v2/template"
 	"github.com/compose-spec/compose-go/v2/tree"
-	"github.com/sirupsen/logrus"
 	"gopkg.in/yaml.v3"
 
 	"verifharness/core"
@@ -786,7 +784,6 @@ func mergeInto(dst, src map[string]any) {
 }
 
 func init() {
-	logrus.SetOutput(io.Discard)
 	core.Register("interpolate", &core.CheckDef{
 		Real:     realInterpolate,
 		DriverOp: "interpolate",
